@@ -17,6 +17,15 @@ Workloads
   proc      connection creation (peer present / absent + cancel / BR/EDR absent), disconnect
             (live / unknown / peer already gone), remote features, remote name, encryption
             (live / dead handle), CIS set-up
+  cig       HISTORIES on one piece of controller state: the same CIG configured 1-3 times (other CIS
+            counts / ids, CIS ids that equal CIG ids), Remove CIG then configure again, two CIGs, then LE
+            Create CIS (one command or one per CIG, raw HCI or Device.setup_cig/create_cis): every CIS handle
+            accepted as pending is concluded by an LE CIS Established event carrying THAT handle, on the
+            central and (LE Accept CIS Request) on the peripheral; established CIS disconnected and created again
+  train     stateful command trains: advertising / scan response / periodic advertising data written in
+            fragments (FIRST, INTERMEDIATE*, LAST; UNCHANGED; COMPLETE after a partial train; LAST without
+            FIRST; a second train; trains for two handles and several data kinds interleaved, sets removed or
+            enabled mid-train): each command answered exactly once under its own opcode, later commands served
 """
 from __future__ import annotations
 
@@ -30,7 +39,8 @@ from vlib.result import R
 
 ID = 'C03'
 LEVEL = 'exploration'
-RULE = ('sweep: one case per (command class | unregistered opcode, controller state, parameter seed), non-trivial = '
+RULE = ('cig: one per (configuration history, CIS subsets, command grouping); train: one per (data kinds, handles, '
+        'operation sequences, interleaving); sweep: one case per (command class | unregistered opcode, controller state, parameter seed), non-trivial = '
         'the controller produced or should have produced a reply, distinct = (opcode, state, parameter bytes); host: '
         'one per (task count, command mix, delay); proc: one per (procedure, scenario)')
 ASSUMPTIONS = [
@@ -41,9 +51,17 @@ ASSUMPTIONS = [
 ]
 MIN_EVENTS = {
     'quick': {'commands_swept': 2000, 'distinct_opcodes_swept': 200, 'pending_procedures_followed': 100,
-              'host_commands': 5000, 'own_opcode_checks': 5000, 'proc_cases': 150},
+              'host_commands': 5000, 'own_opcode_checks': 5000, 'proc_cases': 150,
+              'cig_histories': 100, 'cis_handles_followed': 150, 'cis_created_after_reconfiguration': 40,
+              'cis_created_after_remove_and_reconfiguration': 10, 'cis_created_in_two_cigs': 20,
+              'cis_accepts_followed': 150, 'train_cases': 120, 'train_commands': 1500,
+              'train_continuation_fragments': 400, 'train_followups_answered': 120},
     'thorough': {'commands_swept': 18000, 'distinct_opcodes_swept': 220, 'pending_procedures_followed': 600,
-                 'host_commands': 30000, 'own_opcode_checks': 30000, 'proc_cases': 800},
+                 'host_commands': 30000, 'own_opcode_checks': 30000, 'proc_cases': 800,
+                 'cig_histories': 700, 'cis_handles_followed': 1000, 'cis_created_after_reconfiguration': 300,
+                 'cis_created_after_remove_and_reconfiguration': 80, 'cis_created_in_two_cigs': 150,
+                 'cis_accepts_followed': 1000, 'train_cases': 900, 'train_commands': 12000,
+                 'train_continuation_fragments': 3000, 'train_followups_answered': 900},
 }
 CASE_TIMEOUT = 600
 
@@ -104,6 +122,10 @@ def plan(tier, seed):
     for p in procs:
         for k in range(reps):
             cases.append({'kind': 'proc', 'proc': p, 'seed': seed * 1000003 + k})
+    for i in range(140 if tier == 'quick' else 1000):
+        cases.append({'kind': 'cig', 'seed': seed * 1000003 + i})
+    for i in range(160 if tier == 'quick' else 1200):
+        cases.append({'kind': 'train', 'seed': seed * 1000003 + i})
     return cases
 
 
@@ -708,6 +730,520 @@ async def proc_case(case, r: R):
     r.sample = {'kind': 'proc', 'procedure': p, 'delay': delay}
 
 
+# -----------------------------------------------------------------------------
+# cig: multi-command histories on the controller's CIG / CIS table
+def cis_established_events(log, dev, start):
+    """(seq, status, handle) of every LE CIS Established event controller `dev` emitted."""
+    out = []
+    for seq, d, direction, pkt, _t in log[start:]:
+        if d == dev and direction == 'c2h' and pkt[0] == 4 and pkt[1] == 0x3E and len(pkt) >= 7 and pkt[3] == 0x19:
+            out.append((seq, pkt[4], (pkt[5] | pkt[6] << 8) & 0x0FFF))
+    return out
+
+
+def disconnection_events(log, dev, start):
+    out = []
+    for seq, d, direction, pkt, _t in log[start:]:
+        if d == dev and direction == 'c2h' and pkt[0] == 4 and pkt[1] == 0x05 and len(pkt) >= 7:
+            out.append((seq, pkt[3], (pkt[4] | pkt[5] << 8) & 0x0FFF))
+    return out
+
+
+def cig_history(rng):
+    """[('set', cig, [cis ids]) | ('remove', cig)], label. CIG and CIS ids are drawn from the same small
+    range, so that a CIS id often equals a CIG id (its own or the other one's)."""
+    ids = [0, 1, 2, 3]
+    a, b = rng.sample(ids, 2)
+
+    def cis_ids(avoid=None):
+        k = rng.choice([1, 1, 2, 2, 3])
+        pool = list(ids) + [4, 0xEF]
+        out = rng.sample(pool, k)
+        if rng.random() < 0.5 and a not in out:
+            out[rng.randrange(len(out))] = a        # a CIS id that equals the CIG id
+        return out
+
+    pattern = rng.choice(['single', 'reconfigured', 'reconfigured', 'reconfigured', 'removed-reconfigured', 'two-cigs',
+                          'two-cigs-reconfigured'])
+    steps = []
+    if pattern == 'single':
+        steps = [('set', a, cis_ids())]
+    elif pattern == 'reconfigured':
+        first = cis_ids()
+        steps = [('set', a, first)]
+        for _ in range(rng.choice([1, 1, 2])):
+            how = rng.choice(['same', 'other', 'grow', 'shrink'])
+            prev = steps[-1][2]
+            if how == 'same':
+                nxt = list(prev)
+            elif how == 'grow':
+                nxt = list(prev) + [x for x in (5, 6) if x not in prev][:1]
+            elif how == 'shrink' and len(prev) > 1:
+                nxt = prev[:-1]
+            else:
+                nxt = cis_ids()
+            steps.append(('set', a, nxt))
+    elif pattern == 'removed-reconfigured':
+        steps = [('set', a, cis_ids()), ('remove', a), ('set', a, cis_ids())]
+        if rng.random() < 0.3:
+            steps.insert(0, ('remove', a))      # Remove CIG of a CIG that does not exist: answered with an error
+    elif pattern == 'two-cigs':
+        steps = [('set', a, cis_ids()), ('set', b, cis_ids())]
+    else:
+        steps = [('set', a, cis_ids()), ('set', b, cis_ids()), ('set', rng.choice([a, b]), cis_ids())]
+        if rng.random() < 0.4:
+            steps.append(('set', rng.choice([a, b]), cis_ids()))
+    return steps, pattern
+
+
+async def cig_case(case, r: R):
+    from bumble import hci
+    from bumble.device import CigParameters
+    from vlib import rig as vrig
+    rng = random.Random(case['seed'])
+    vrig.seed_entropy(case['seed'])
+    delay = rng.choice([0, 0, 1, 3])
+    rg = vrig.Rig(3, seed=case['seed'], max_delay=delay)
+    await rg.power_on()
+    host, dev0 = rg.hosts[0], rg.devices[0]
+    acls = {1: (await rg.connect_le(0, 1))[0]}
+    if rng.random() < 0.5:
+        acls[2] = (await rg.connect_le(0, 2))[0]
+    await rg.quiesce()
+    accept_tasks = []
+
+    def acceptor(d):
+        async def accept(cis_link):
+            try:
+                await rg.devices[d].accept_cis_request(cis_link)
+            except Exception:
+                pass
+        rg.devices[d].on('cis_request', lambda cis_link: accept_tasks.append(asyncio.ensure_future(accept(cis_link))))
+    for d in acls:
+        acceptor(d)
+
+    steps, label = cig_history(rng)
+    via = rng.choice(['raw', 'raw', 'device'])
+    start = len(rg.hci_log)
+    r.ev('cig_histories')
+    current = {}        # cig -> [(cis id, handle)] of its LATEST configuration (independent ledger)
+    sets_since_remove = {}
+    removed_once = set()
+    hist = []
+
+    async def command(cmd, what):
+        try:
+            resp = await vloop.vwait(host.send_command(cmd), 120)
+        except vloop.Hang:
+            r.bad(f'answer/none/cis/{what}', f'{cmd.name} not answered within 120 virtual s; history {hist}')
+            return None
+        r.ev('oracle_evals')
+        if resp.command_opcode != cmd.op_code:
+            r.bad(f'own/foreign-response/cis/{what}', f'{cmd.name} was answered with opcode {resp.command_opcode:#06x}')
+            return None
+        return resp
+
+    def set_cig_command(cig, ids):
+        n = len(ids)
+        return hci.HCI_LE_Set_CIG_Parameters_Command(
+            cig_id=cig, sdu_interval_c_to_p=rng.choice([7500, 10000]), sdu_interval_p_to_c=10000, worst_case_sca=0,
+            packing=0, framing=0, max_transport_latency_c_to_p=10, max_transport_latency_p_to_c=10, cis_id=list(ids),
+            max_sdu_c_to_p=[100] * n, max_sdu_p_to_c=[100] * n, phy_c_to_p=[1] * n, phy_p_to_c=[1] * n,
+            rtn_c_to_p=[1] * n, rtn_p_to_c=[1] * n)
+
+    for st in steps:
+        if st[0] == 'set':
+            _, cig, ids = st
+            if via == 'device':
+                try:
+                    handles = list(await vloop.vwait(dev0.setup_cig(CigParameters(
+                        cig_id=cig, cis_parameters=[CigParameters.CisParameters(cis_id=i) for i in ids],
+                        sdu_interval_c_to_p=10000, sdu_interval_p_to_c=10000)), 120))
+                except vloop.Hang:
+                    r.bad('answer/none/cis/set-cig-parameters', f'Device.setup_cig pending after 120 virtual s; history {hist}')
+                    return
+                except Exception as ex:
+                    r.ev('cig_setup_refused')
+                    r.add_extra_list('cig_errors', f'{type(ex).__name__}: {ex}')
+                    return
+            else:
+                resp = await command(set_cig_command(cig, ids), 'set-cig-parameters')
+                if resp is None:
+                    return
+                rp = resp.return_parameters
+                if getattr(rp, 'status', 1) != 0:
+                    r.ev('cig_setup_refused')
+                    r.add_extra_list('cig_errors', f'Set CIG Parameters {cig} {ids}: status {getattr(rp, "status", None)}')
+                    return
+                handles = list(rp.connection_handle)
+            hist.append(('set', cig, list(ids), [hex(h) for h in handles]))
+            others = {h for c, v in current.items() if c != cig for _i, h in v} | {c.handle for c in acls.values()}
+            r.ev('oracle_evals')
+            if len(handles) != len(ids) or len(set(handles)) != len(handles) or set(handles) & others:
+                r.bad(f'conclude/ambiguous-handle/cis/{label}',
+                      f'LE Set CIG Parameters for {len(ids)} CIS returned handles {[hex(h) for h in handles]}; handles in '
+                      f'use by other CIGs / ACL connections: {sorted(map(hex, others))}; history {hist}')
+                return
+            current[cig] = list(zip(ids, handles))
+            sets_since_remove[cig] = sets_since_remove.get(cig, 0) + 1
+        else:
+            _, cig = st
+            resp = await command(hci.HCI_LE_Remove_CIG_Command(cig_id=cig), 'remove-cig')
+            if resp is None:
+                return
+            hist.append(('remove', cig))
+            if cig in current:
+                removed_once.add(cig)
+            current.pop(cig, None)
+            sets_since_remove[cig] = 0
+
+    # ---- LE Create CIS for CIS of the latest configurations -------------------------------
+    ever_pending = set()
+
+    async def create(pairs, group_label, raw=False):
+        """pairs: [(cis handle, acl handle)]. Returns the handles that were established."""
+        mark = len(rg.hci_log)
+        task = None
+        if via == 'device' and not raw:
+            by_handle = {c.handle: c for c in acls.values()}
+            task = asyncio.ensure_future(dev0.create_cis([(h, by_handle[a]) for h, a in pairs]))
+            status = None
+            for _ in range(4000):
+                await asyncio.sleep(0)
+                cs = [e for e in parse_events(rg.hci_log, 0, mark) if e[1] in ('cs', 'cc') and e[2] == 0x2064]
+                if cs:
+                    status = cs[0][3] if cs[0][1] == 'cs' else 0xFF
+                    break
+                if task.done():
+                    break
+            if status is None:
+                r.bad('answer/none/cis/create-cis', f'Device.create_cis: LE Create CIS not answered; history {hist}')
+                task.cancel()
+                return None
+        else:
+            resp = await command(hci.HCI_LE_Create_CIS_Command(cis_connection_handle=[h for h, _a in pairs],
+                                                               acl_connection_handle=[a for _h, a in pairs]), 'create-cis')
+            if resp is None:
+                return None
+            status = resp.status if isinstance(resp, hci.HCI_Command_Status_Event) else 0xFF
+        hist.append(('create', [hex(h) for h, _a in pairs], f'status {status}'))
+        if status != 0:
+            r.ev('cis_create_refused')
+            if task is not None:
+                task.cancel()
+            return set()
+        r.ev('pending_procedures_followed')
+        want = [h for h, _a in pairs]
+        ever_pending.update(want)
+        deadline = asyncio.get_running_loop().time() + vloop.T_V
+        while True:
+            await rg.quiesce()
+            evs = cis_established_events(rg.hci_log, 0, mark)
+            if all(any(e[2] == h for e in evs) for h in want):
+                break
+            if asyncio.get_running_loop().time() >= deadline:
+                break
+            await asyncio.sleep(5.0)
+        evs = cis_established_events(rg.hci_log, 0, mark)
+        seen = [e[2] for e in evs]
+        for h in want:
+            r.ev('cis_handles_followed')
+            r.ev('oracle_evals')
+            n = seen.count(h)
+            if n == 0:
+                r.bad(f'conclude/never/cis/{group_label}',
+                      f'LE Create CIS for CIS handles {[hex(x) for x in want]} was answered PENDING; no LE CIS Established '
+                      f'event carries handle {h:#06x} within T_v (events carry {[hex(x) for x in seen]}); {via} history {hist}')
+            elif n > 1:
+                r.bad(f'conclude/twice/cis/{group_label}',
+                      f'{n} LE CIS Established events for handle {h:#06x}; {via} history {hist}')
+        r.ev('oracle_evals')
+        foreign = [x for x in seen if x not in ever_pending]
+        if foreign:
+            r.bad(f'conclude/foreign-handle/cis/{group_label}',
+                  f'LE CIS Established for handles {[hex(x) for x in foreign]} that no LE Create CIS named (pending: '
+                  f'{[hex(x) for x in want]}); {via} history {hist}')
+        if task is not None:
+            try:
+                await vloop.vwait(task, 60)
+            except vloop.Hang:
+                task.cancel()
+            except Exception:
+                pass
+        return {e[2] for e in evs if e[1] == 0 and e[2] in want}
+
+    def class_of(cigs):
+        if any(sets_since_remove.get(c, 0) >= 2 for c in cigs):
+            return 'reconfigured'
+        if any(c in removed_once for c in cigs):
+            return 'removed-reconfigured'
+        if len(current) >= 2:
+            return 'two-cigs'
+        return 'single'
+
+    acl_of = {cig: rng.choice(sorted(acls)) for cig in current}
+    chosen = {}
+    for cig, lst in current.items():
+        k = rng.randint(1, len(lst))
+        chosen[cig] = rng.sample(lst, k)
+    groups = []
+    if len(chosen) >= 2 and rng.random() < 0.5:
+        groups = [sorted(chosen)]               # one LE Create CIS for the CIS of both CIGs
+    else:
+        groups = [[c] for c in sorted(chosen)]
+        rng.shuffle(groups)
+    established = {}
+    for cigs in groups:
+        pairs = [(h, acls[acl_of[c]].handle) for c in cigs for _i, h in chosen[c]]
+        cls = class_of(cigs)
+        r.ev({'reconfigured': 'cis_created_after_reconfiguration',
+              'removed-reconfigured': 'cis_created_after_remove_and_reconfiguration',
+              'two-cigs': 'cis_created_in_two_cigs', 'single': 'cis_created_single_configuration'}[cls])
+        if len(current) >= 2 and cls != 'two-cigs':
+            r.ev('cis_created_in_two_cigs')
+        got = await create(pairs, cls)
+        if got is None:
+            break
+        for h in got:
+            established[h] = [a for hh, a in pairs if hh == h][0]
+
+    # ---- an established CIS is disconnected and created again (the handle stays configured) -----
+    recreate_mark = [None]
+    if established and rng.random() < 0.5:
+        h = rng.choice(sorted(established))
+        mark = recreate_mark[0] = len(rg.hci_log)
+        resp = await command(hci.HCI_Disconnect_Command(connection_handle=h, reason=0x13), 'disconnect-cis')
+        if resp is not None and getattr(resp, 'status', 1) == 0:
+            r.ev('pending_procedures_followed')
+            await asyncio.sleep(1.0)
+            await rg.quiesce()
+            done = [e for e in disconnection_events(rg.hci_log, 0, mark) if e[2] == h]
+            r.ev('oracle_evals')
+            hist.append(('disconnect', hex(h)))
+            if not done:
+                r.bad('conclude/never/cis/disconnect-established',
+                      f'Disconnect of the established CIS {h:#06x} answered PENDING, no Disconnection Complete for it; '
+                      f'history {hist}')
+            else:
+                r.ev('cis_recreated_after_disconnect')
+                # (Device.create_cis needs a new setup_cig for a second use of a handle: the raw command is used)
+                await create([(h, established[h])], 'recreated-after-disconnect', raw=True)
+
+    # ---- the peripherals: every LE Accept CIS Request accepted as pending is concluded for ITS handle
+    await rg.quiesce()
+    for d in acls:
+        accepted = []
+        outstanding = None
+        for seq, dd, direction, pkt, _t in rg.hci_log[start:]:
+            if dd != d:
+                continue
+            if direction == 'h2c' and pkt[0] == 1 and (pkt[1] | pkt[2] << 8) == 0x2066 and len(pkt) >= 6:
+                outstanding = (pkt[4] | pkt[5] << 8) & 0x0FFF
+            elif direction == 'c2h' and pkt[0] == 4 and pkt[1] == 0x0F and len(pkt) >= 7 and (pkt[5] | pkt[6] << 8) == 0x2066:
+                if pkt[3] == 0 and outstanding is not None:
+                    accepted.append((seq, outstanding))
+                outstanding = None
+        evs = cis_established_events(rg.hci_log, d, start)
+        for seq, h in accepted:
+            r.ev('cis_accepts_followed')
+            r.ev('oracle_evals')
+            if not any(e[2] == h and e[0] > seq for e in evs):
+                lab = 'recreated-after-disconnect' if recreate_mark[0] is not None and seq > recreate_mark[0] else label
+                r.bad(f'conclude/never/cis-accept/{lab}',
+                      f'peripheral {d}: LE Accept CIS Request for handle {h:#06x} answered PENDING, LE CIS Established events '
+                      f'carry {[hex(e[2]) for e in evs]}; history {hist}')
+    for t in accept_tasks:
+        t.cancel()
+    for where, ex in rg.exceptions:
+        if where == 'c2h0':
+            # raw commands behind Device 0's back: its bookkeeping of CIS it never asked for is not judged
+            r.ev('host_side_exceptions_ignored')
+            continue
+        r.bad(f'answer/exception-later/cis/{label}', f'{where}: {ex}; {via} history {hist}')
+    r.sig('cig', via, tuple((s[0], s[1], tuple(s[2]) if len(s) > 2 else ()) for s in steps),
+          tuple(tuple(g) for g in groups), tuple(sorted((c, len(v)) for c, v in chosen.items())), len(acls))
+    r.sched.add(rg.schedule_signature)
+    r.evals()
+    r.sample = {'kind': 'cig', 'via': via, 'pattern': label, 'history': [list(map(str, h)) for h in hist][:8]}
+
+
+# -----------------------------------------------------------------------------
+# train: commands whose handling depends on what an earlier command of the same train stored
+TRAIN_PATTERNS = [
+    ['FIRST', 'LAST'], ['FIRST', 'INTERMEDIATE', 'LAST'], ['FIRST', 'INTERMEDIATE', 'INTERMEDIATE', 'INTERMEDIATE', 'LAST'],
+    ['COMPLETE'], ['COMPLETE', 'UNCHANGED'], ['FIRST', 'INTERMEDIATE', 'COMPLETE'], ['FIRST', 'COMPLETE', 'UNCHANGED'],
+    ['LAST'], ['INTERMEDIATE', 'LAST'], ['FIRST', 'LAST', 'FIRST', 'INTERMEDIATE', 'LAST'], ['COMPLETE', 'INTERMEDIATE', 'LAST'],
+    ['COMPLETE', 'LAST'], ['FIRST', 'FIRST', 'LAST'], ['UNCHANGED'], ['FIRST', 'LAST', 'UNCHANGED'],
+    ['COMPLETE', 'COMPLETE', 'FIRST', 'LAST'],
+]
+OPERATION = {'INTERMEDIATE': 0, 'FIRST': 1, 'LAST': 2, 'COMPLETE': 3, 'UNCHANGED': 4}
+
+
+async def train_case(case, r: R):
+    from bumble import hci
+    from vlib import rig as vrig
+    rng = random.Random(case['seed'])
+    vrig.seed_entropy(case['seed'])
+    delay = rng.choice([0, 0, 1, 3])
+    rg = vrig.Rig(2, seed=case['seed'], max_delay=delay)
+    if rng.random() < 0.7:
+        rg.controllers[0].le_features = rg.controllers[0].le_features | hci.LeFeatureMask.LE_EXTENDED_ADVERTISING
+    await rg.power_on()
+    host = rg.hosts[0]
+    r.ev('train_cases')
+    handles = rng.sample([0, 1, 2, 0x10, 0xEF], 2)
+    created = {}
+
+    def params_cmd(h):
+        return hci.HCI_LE_Set_Extended_Advertising_Parameters_Command(
+            advertising_handle=h, advertising_event_properties=rng.choice([0x0013, 0x0001, 0x0000, 0x0002]),
+            primary_advertising_interval_min=160, primary_advertising_interval_max=160, primary_advertising_channel_map=7,
+            own_address_type=1, peer_address_type=0, peer_address=hci.Address.ANY, advertising_filter_policy=0,
+            advertising_tx_power=0, primary_advertising_phy=1, secondary_advertising_max_skip=0, secondary_advertising_phy=1,
+            advertising_sid=0, scan_request_notification_enable=0)
+
+    def addr_cmd(h):
+        return hci.HCI_LE_Set_Advertising_Set_Random_Address_Command(
+            advertising_handle=h, random_address=hci.Address(f'C{h & 7}:0{h & 7}:11:22:33:F{h & 7}', hci.Address.RANDOM_DEVICE_ADDRESS))
+
+    script = []     # (label, command, stream key, operation, previous operation of the stream)
+    for h in handles:
+        how = rng.choice(['params+addr', 'params+addr', 'params', 'addr', 'none'])
+        created[h] = how
+        if 'params' in how:
+            script.append(('set-ext-adv-params', params_cmd(h), None, None, None))
+        if 'addr' in how:
+            script.append(('set-adv-set-random-address', addr_cmd(h), None, None, None))
+
+    def data_cmd(kind, h, op, data):
+        if kind == 'ext-adv-data':
+            return hci.HCI_LE_Set_Extended_Advertising_Data_Command(advertising_handle=h, operation=op,
+                                                                    fragment_preference=rng.choice([0, 1]), advertising_data=data)
+        if kind == 'ext-scan-response-data':
+            return hci.HCI_LE_Set_Extended_Scan_Response_Data_Command(advertising_handle=h, operation=op,
+                                                                      fragment_preference=rng.choice([0, 1]), scan_response_data=data)
+        return hci.HCI_LE_Set_Periodic_Advertising_Data_Command(advertising_handle=h, operation=op, advertising_data=data)
+
+    streams = []
+    combos = [(k, h) for k in ('ext-adv-data', 'ext-scan-response-data', 'periodic-adv-data') for h in handles]
+    rng.shuffle(combos)
+    first = ('ext-adv-data' if rng.random() < 0.5 else rng.choice(['ext-scan-response-data', 'periodic-adv-data']), handles[0])
+    picks = [first] + [c for c in combos if c != first][:rng.choice([0, 1, 1, 2, 3])]
+    for kind, h in picks:
+        ops = list(rng.choice(TRAIN_PATTERNS))
+        if rng.random() < 0.3:
+            ops += list(rng.choice(TRAIN_PATTERNS))
+        long_train = rng.random() < 0.12
+        if long_train:
+            # more than the 1650 bytes the controller reports as its maximum advertising data length
+            ops = ['FIRST'] + ['INTERMEDIATE'] * rng.choice([6, 7, 9]) + ['LAST']
+            r.ev('train_longer_than_maximum_data_length')
+        items = []
+        prev = 'start'
+        for op in ops:
+            ln = 0 if op == 'UNCHANGED' else 251 if long_train else rng.choice([0, 1, 31, 200, 251])
+            data = bytes(rng.getrandbits(8) for _ in range(ln))
+            items.append((kind, data_cmd(kind, h, OPERATION[op], data), (kind, h), op, prev))
+            prev = op
+        streams.append(items)
+    # interleave the trains (per-train order kept), unrelated and set-level commands in between
+    order = [i for i, st in enumerate(streams) for _ in st]
+    if rng.random() < 0.7:
+        rng.shuffle(order)
+    its = [iter(st) for st in streams]
+    body = [next(its[i]) for i in order]
+    extras = [rng.choice(['bd-addr', 'legacy-adv-data', 'legacy-scan-response-data', 'enable', 'remove-set', 'params-again',
+                          'clear-sets', 'periodic-params']) for _ in range(rng.choice([0, 1, 2, 3]))]
+    for x in sorted(extras, key=lambda v: v == 'enable'):      # 'enable' last: its three commands stay adjacent
+        h = rng.choice(handles)
+        if x == 'bd-addr':
+            item = ('read-bd-addr', hci.HCI_Read_BD_ADDR_Command(), None, None, None)
+        elif x == 'legacy-adv-data':
+            item = ('legacy-adv-data', hci.HCI_LE_Set_Advertising_Data_Command(advertising_data=bytes(rng.choice([0, 31]))), None, None, None)
+        elif x == 'legacy-scan-response-data':
+            item = ('legacy-scan-response-data', hci.HCI_LE_Set_Scan_Response_Data_Command(scan_response_data=bytes(rng.choice([0, 31]))),
+                    None, None, None)
+        elif x == 'enable':
+            # a set that has parameters and an address is enabled in the middle of the trains, disabled at the end
+            at = rng.randint(0, len(body))
+            body[at:at] = [('set-ext-adv-params', params_cmd(h), None, None, None),
+                           ('set-adv-set-random-address', addr_cmd(h), None, None, None),
+                           ('ext-adv-enable', hci.HCI_LE_Set_Extended_Advertising_Enable_Command(
+                               enable=1, advertising_handles=[h], durations=[0], max_extended_advertising_events=[0]), None, None, None)]
+            body.append(('ext-adv-disable', hci.HCI_LE_Set_Extended_Advertising_Enable_Command(
+                enable=0, advertising_handles=[], durations=[], max_extended_advertising_events=[]), None, None, None))
+            continue
+        elif x == 'remove-set':
+            item = ('remove-advertising-set', hci.HCI_LE_Remove_Advertising_Set_Command(advertising_handle=h), None, None, None)
+        elif x == 'clear-sets':
+            item = ('clear-advertising-sets', hci.HCI_LE_Clear_Advertising_Sets_Command(), None, None, None)
+        elif x == 'periodic-params':
+            item = ('periodic-adv-params', hci.HCI_LE_Set_Periodic_Advertising_Parameters_Command(
+                advertising_handle=h, periodic_advertising_interval_min=80, periodic_advertising_interval_max=80,
+                periodic_advertising_properties=0), None, None, None)
+        else:
+            item = ('set-ext-adv-params', params_cmd(h), None, None, None)
+        body.insert(rng.randint(0, len(body)), item)
+    script += body
+    script.append(('followup-read-bd-addr', hci.HCI_Read_BD_ADDR_Command(), None, None, None))
+    script.append(('followup-le-rand', hci.HCI_LE_Rand_Command(), None, None, None))
+
+    def key_of(item):
+        label, _cmd, stream, op, prev = item
+        return f'{label}/{op}-after-{prev}' if stream else label
+
+    trace = []
+    blocked = False
+    for item in script:
+        label, cmd, stream, op, prev = item
+        mark = len(rg.hci_log)
+        dl = len(getattr(cmd, 'advertising_data', None) or getattr(cmd, 'scan_response_data', None) or b'')
+        trace.append(key_of(item) + (f'[h{stream[1]:#x},{dl}B]' if stream else ''))
+        try:
+            resp = await vloop.vwait(host.send_command(cmd), 120)
+        except vloop.Hang:
+            resp = None
+        except Exception as ex:
+            r.bad(f'own/caller-got-exception/train/{key_of(item)}', f'{type(ex).__name__}: {ex}; commands so far {trace}')
+            break
+        await rg.quiesce()
+        r.ev('train_commands')
+        if stream and op in ('INTERMEDIATE', 'LAST', 'UNCHANGED'):
+            r.ev('train_continuation_fragments')
+        r.ev('oracle_evals', 2)
+        evs = [e for e in parse_events(rg.hci_log, 0, mark) if e[1] in ('cc', 'cs')]
+        mine = [e for e in evs if e[2] == cmd.op_code]
+        other = [e for e in evs if e[2] not in (cmd.op_code, 0)]
+        excs = [f'{w}: {e}' for w, e in rg.exceptions]
+        if len(mine) != 1:
+            r.bad(f'answer/{"none" if not mine else "multiple"}/train/{key_of(item)}',
+                  f'{len(mine)} Command Complete/Status events for {cmd.name} ({cmd.op_code:#06x}); commands so far {trace}; '
+                  f'exceptions in the stack: {excs[:2]}')
+            blocked = True
+        if other:
+            r.bad(f'answer/foreign-opcode/train/{key_of(item)}',
+                  f'{cmd.name} was followed by a reply for {[hex(e[2]) for e in other]}; commands so far {trace}')
+        if resp is None and len(mine) == 1:
+            r.bad(f'single/caller-hang/train/{key_of(item)}', f'the answer to {cmd.name} was emitted but its caller still waits')
+            blocked = True
+        if resp is not None:
+            r.ev('own_opcode_checks')
+            if resp.command_opcode != cmd.op_code:
+                r.bad(f'own/foreign-response/train/{key_of(item)}',
+                      f'caller of {cmd.name} was handed a response for {resp.command_opcode:#06x}')
+        if blocked:
+            break
+        if label.startswith('followup'):
+            r.ev('train_followups_answered')
+    if not blocked:
+        for where, ex in rg.exceptions:
+            r.bad('answer/exception-later/train', f'{where}: {ex}; commands {trace}')
+    r.sig('train', tuple(created.values()), tuple(key_of(i) for i in script if i[2]), tuple(order))
+    r.sched.add(rg.schedule_signature)
+    r.evals()
+    r.sample = {'kind': 'train', 'sets': {hex(h): v for h, v in created.items()}, 'commands': trace[:14]}
+
+
 def run_case(case, r: R):
     k = case['kind']
     if k == 'sweep':
@@ -716,6 +1252,10 @@ def run_case(case, r: R):
         return sweep_unknown(case, r)
     if k == 'host':
         return host_case(case, r)
+    if k == 'cig':
+        return cig_case(case, r)
+    if k == 'train':
+        return train_case(case, r)
     return proc_case(case, r)
 
 
